@@ -1194,6 +1194,55 @@ class Machine(object):
                 if mode == "option_filter":
                     nf.locals[0] = Cell(Ref(Cell(pay_)))
                 return self.native_advance(st, nf)
+        if d in ("std::result::Result::<T, E>::map_err", "std::result::Result::<T, E>::map"):
+            # the closure runs on the payload of one variant; the other variant passes through unchanged
+            ov = deref_val(args[0])
+            mode = "result_" + d.rsplit("::", 1)[1]
+            hit, miss, hi, mi = ("Err", "Ok", 1, 0) if mode == "result_map_err" else ("Ok", "Err", 0, 1)
+            if isinstance(ov, Opaque):
+                s2 = copy.deepcopy(st)
+                d2 = self.find_copied_cell(st, s2, dest)
+                d2.val = AdtVal("std::result::Result", mi, {0: Cell(Opaque(join_label(ov.label, miss + ".0")))}, None, miss)
+                s2.conds.append((("variant", ov.label), miss))
+                s2.frames[-1].bb = target
+                st.conds.append((("variant", ov.label), hit))
+                payload = Opaque(join_label(ov.label, hit + ".0"))
+                fr.bb = target
+                nf = Frame(("<native>", mode), 0)
+                nf.locals = [Cell(payload), dest, Cell(args[1])]
+                nf.data = {"kinds": ["sink"], "idx": 0, "target": target, "mode": mode, "loc": loc(t), "src": ov.label, "quiet": True, "payload": payload}
+                st.frames.append(nf)
+                self.native_advance(st, nf)
+                return [s2]
+            if isinstance(ov, AdtVal) and ov.vname == miss:
+                return finish(ov)
+            if isinstance(ov, AdtVal) and ov.vname == hit:
+                fr.bb = target
+                nf = Frame(("<native>", mode), 0)
+                pay_ = self.field_cell(ov, 0, None, None).val
+                nf.locals = [Cell(pay_), dest, Cell(args[1])]
+                nf.data = {"kinds": ["sink"], "idx": 0, "target": target, "mode": mode, "loc": loc(t), "src": lab(ov), "quiet": True, "payload": pay_}
+                st.frames.append(nf)
+                return self.native_advance(st, nf)
+        if d in ("std::result::Result::<T, E>::ok", "std::result::Result::<T, E>::err"):
+            ov = deref_val(args[0])
+            keep = "Ok" if d.endswith("::ok") else "Err"
+            drop = "Err" if keep == "Ok" else "Ok"
+            none = AdtVal("std::option::Option", 0, {}, None, "None")
+            if isinstance(ov, AdtVal) and ov.vname == keep:
+                return finish(AdtVal("std::option::Option", 1, {0: Cell(self.field_cell(ov, 0, None, None).val)}, None, "Some"))
+            if isinstance(ov, AdtVal) and ov.vname == drop:
+                return finish(none)
+            if isinstance(ov, Opaque):
+                s2 = copy.deepcopy(st)
+                d2 = self.find_copied_cell(st, s2, dest)
+                d2.val = none
+                s2.conds.append((("variant", ov.label), drop))
+                s2.frames[-1].bb = target
+                st.conds.append((("variant", ov.label), keep))
+                dest.val = AdtVal("std::option::Option", 1, {0: Cell(Opaque(join_label(ov.label, keep + ".0")))}, None, "Some")
+                fr.bb = target
+                return [s2]
         if d in ADAPTORS:
             kind = ADAPTORS[d]
             fields = {0: Cell(args[0])}
@@ -1376,6 +1425,10 @@ class Machine(object):
                 return self.native_finish(st, nf, Const("unit", None))
             if d["mode"] == "option_map":
                 return self.native_finish(st, nf, AdtVal("std::option::Option", 1, {0: Cell(ret)}, None, "Some"))
+            if d["mode"] == "result_map_err":
+                return self.native_finish(st, nf, AdtVal("std::result::Result", 1, {0: Cell(ret)}, None, "Err"))
+            if d["mode"] == "result_map":
+                return self.native_finish(st, nf, AdtVal("std::result::Result", 0, {0: Cell(ret)}, None, "Ok"))
             if d["mode"] == "option_filter":
                 rv = deref_val(ret)
                 some = AdtVal("std::option::Option", 1, {0: Cell(d["payload"])}, None, "Some")
